@@ -221,6 +221,7 @@ func runAbort09(args []*Sexp) *Sexp {
 		pan any
 	}
 	done := make(chan result, 1)
+	abortReturned := make(chan struct{})
 	var vm *ugo.VM
 	t0 := time.Now()
 	if scenario == "eval-root" || scenario == "eval-child" {
@@ -261,6 +262,7 @@ func runAbort09(args []*Sexp) *Sexp {
 			ctl.aborting = true
 			ctl.mu.Unlock()
 			vm.Abort()
+			close(abortReturned)
 		}()
 	}
 	outcome := "hang"
@@ -313,11 +315,59 @@ func runAbort09(args []*Sexp) *Sexp {
 			}
 		}
 	}
+	// "an aborted VM runs later scripts normally": the same VM object, and VMs drawing child VMs
+	// from the pool afterwards, run a script with pooled callbacks to completion
+	if outcome == "aborted" && scenario != "eval-root" && scenario != "eval-child" {
+		// the Abort call itself must have returned: a call still in progress may legitimately abort the next run
+		select {
+		case <-abortReturned:
+		case <-time.After(2 * time.Second):
+		}
+		if why := abortFollowUp(vm, mm); why != "" {
+			outcome = "rerun:" + sanitize(why)
+		}
+	}
 	tr := L(A("trace"))
 	for _, t := range trace {
 		tr.List = append(tr.List, A(t))
 	}
 	return L(A("outcome"), A(outcome), A(fmt.Sprint(ms)), tr)
+}
+
+func abortFollowUp(vm *ugo.VM, mm *ugo.ModuleMap) string {
+	src := "strings := import(\"strings\")\nn := 0\nout := strings.Map(func(c) { n++; return c + 1 }, \"abc\")\n" +
+		"k := strings.IndexFunc(\"xyz\", func(c) { return c == 'z' })\nreturn out + string(n) + string(k)\n"
+	bc, err := ugo.Compile([]byte(src), ugo.CompilerOptions{ModuleMap: mm})
+	if err != nil {
+		return "follow-up script does not compile: " + err.Error()
+	}
+	for round := 0; round < 3; round++ {
+		for _, v := range []*ugo.VM{vm.SetBytecode(bc), ugo.NewVM(bc)} {
+			v.Clear()
+			type res struct {
+				o   ugo.Object
+				err error
+			}
+			ch := make(chan res, 1)
+			go func() {
+				o, err := v.Run(nil)
+				ch <- res{o, err}
+			}()
+			select {
+			case r := <-ch:
+				if r.err != nil {
+					return fmt.Sprintf("a script run after the abort (round %d) failed: %v", round, firstLine(r.err.Error()))
+				}
+				if r.o.String() != "bcd32" {
+					return fmt.Sprintf("a script run after the abort returned %s", r.o.String())
+				}
+			case <-time.After(2 * time.Second):
+				v.Abort()
+				return "a script run after the abort did not return"
+			}
+		}
+	}
+	return ""
 }
 
 func isAborted(err error) bool {
